@@ -293,7 +293,7 @@ func c17Key(o c17Opts, extra map[string]interface{}) string {
 }
 
 func runC17(c *Check) {
-	c.Rule = "project {src/a.js, b.js, img.png, c.css, case-variant entry, symlink lnk->src} x option matrix (outdir in {out, src, ., src/sub, lnk, lnk/sub} x entry-name templates x out-extension x asset-name templates x file/copy loaders x outbase x allow-overwrite x bundle; outfile forms; write disabled) x faults (syntax error; plugin failure in onResolve/onLoad/onEnd) x rebuild histories of length<=3 over {add entry match, remove it, change content hash, break, repair}; oracle = recursive directory snapshots before/after each build compared with the reported OutputFiles; distinct = distinct (created, modified, deleted) sets"
+	c.Rule = "project {src/a.js, b.js, img.png, c.css, case-variant entry, symlink lnk->src} x option matrix (outdir in {out, src, ., src/sub, lnk, lnk/sub} x entry-name templates x out-extension x asset-name templates x file/copy loaders x outbase x allow-overwrite x bundle; outfile forms; write disabled) x faults (syntax error; plugin failure in onResolve/onLoad/onEnd) x rebuild histories of length<=3 over {add entry match, remove it, change content hash, break, repair}; oracle = recursive directory snapshots before/after each build compared with the reported OutputFiles; distinct = distinct (created, modified, deleted) sets; entry-point pairs whose outputs collide on one path"
 	c.Assump = []string{"write-time I/O errors (read-only directories, ENOSPC) and Windows path semantics are not explored", "cancellation points are explored by the C20 scheduler harness; here cancellation is only issued from plugin callbacks of a context build"}
 	root := scratchRoot("c17")
 	defer os.RemoveAll(root)
